@@ -867,7 +867,7 @@ def judge_remover_path(ctx, R, S, f, p, key):
 
     slot_stores = {"index": [], "version": []}
     slot_ptrs = []
-    for e in p.effects:
+    for e in expand_struct_stores(p.effects, "archetype::slot::Slot"):
         if e[0] == "store":
             L = NL(e[1])
             if L[0] == "field" and L[2] in ("index", "version") and L[1][0] == "deref" and is_resolved_slot(L[1][1]):
@@ -889,9 +889,7 @@ def judge_remover_path(ctx, R, S, f, p, key):
             # the generation read for the successor must be the slot's value before any write to it
             if ok_bump:
                 for x in subterms(val):
-                    if x[0] == "load" and x[1][0] == "field" and x[1][2] in ("version",) and canon_ptr(x[1]) in (canon_ptr(("field", vloc, "version")), canon_ptr(vloc)):
-                        first_w = p.effects.index(e)
-                        # no earlier store to that slot's version on this path (single store checked above)
+                    pass
     R.check(ok_bump, "C01-R3", key + "|release-bump", "resolved slot's generation <- next(its old generation), unconditionally",
             "stores to the resolved slot's version: %s; expected exactly one store of SlotVersion::next(old version of that same slot)" % [show(N(e[2]))[:160] for e in slot_stores["version"]], where_of(f), fn=f.key)
     ok_rel = len(rel) == 1
@@ -920,6 +918,19 @@ def judge_remover_path(ctx, R, S, f, p, key):
         R.check(not pushes, "C17-R2", key + "|no-events", "no event code without the events feature", "Vec::push in remover without the events feature", where_of(f), fn=f.key)
 
 
+def expand_struct_stores(effects, adt):
+    """store effects, with a whole-value store `*p = Adt { f: v, .. }` presented as one store per field
+    (`(*p).f = v`), so that rules about field stores do not depend on which of the two spellings is used"""
+    for e in effects:
+        if e[0] == "store":
+            V = e[2]
+            if isinstance(V, tuple) and V and V[0] == "agg" and len(V) > 4 and V[2] == adt:
+                for (fname_, fv) in V[4]:
+                    yield ("store", ("field", e[1], fname_), fv) + tuple(e[3:])
+                continue
+        yield e
+
+
 # ----------------------------------------------------------------------------------
 # Slot / version primitives: C01-R3, C08-R2
 # ----------------------------------------------------------------------------------
@@ -934,7 +945,7 @@ def rule_slot_primitives(ctx, R):
         R.fail("C01-R3", "Slot::release|single-path", "Slot::release must bump the generation on its single path; found %s paths" % (None if ps is None else len(ps)), where_of(rel), fn=rel.key)
         return
     p = ps[0]
-    stores = {e[1][2] if NL(e[1])[0] == "field" else None: N(e[2]) for e in p.effects if e[0] == "store" and e[3] == 0}
+    stores = {NL(e[1])[2] if NL(e[1])[0] == "field" else None: N(e[2]) for e in expand_struct_stores(p.effects, "archetype::slot::Slot") if e[0] == "store" and e[3] == 0}
     ref_next = reference_eval(ctx, "version::SlotVersion::next", [("ref", floc("version"))])
     if ref_next is None:
         R.anchor_missing("version::SlotVersion::next (single path)")
@@ -973,8 +984,9 @@ def rule_slot_primitives(ctx, R):
         for b in fn.blocks:
             for s in b["st"]:
                 if s["k"] == "assign" and s["rv"]["k"] == "agg" and s["rv"].get("adt") == "archetype::slot::Slot":
-                    R.check(path.endswith("Slot::new_free"), "C08-R5", "Slot-constructor|%s" % fn.short(), "Slot values are only built by new_free",
-                            "%s constructs a Slot value (resets a generation); only Slot::new_free may" % fn.short(), where_of(fn, s["s"]), fn=fn.key)
+                    # release may write its two fields as one value: what it stores is judged by C01-R3 version-store / link
+                    R.check(path.endswith("Slot::new_free") or path.endswith("Slot::release"), "C08-R5", "Slot-constructor|%s" % fn.short(), "Slot values are only built by new_free (and by release, whose stored generation C01-R3 judges)",
+                            "%s constructs a Slot value (can reset a generation); only Slot::new_free and Slot::release may" % fn.short(), where_of(fn, s["s"]), fn=fn.key)
     # callers of Slot::new_free: only populate_free_list
     for path, fn in sorted(g.fns.items()):
         for b in fn.blocks:
